@@ -754,9 +754,9 @@ fn main() {
     }
     let bounds = match args.tier {
         Tier::Quick => "k = 2 for single-sink families and for sticky two-sink families (unzip, demux_map, demux_map_lazy, demux_var2), fickle two-sink: k = 2 for <= 3 items and 1 for 4 items; \
-three-sink demux_var: items <= 3, sticky k = 2 (1 at 3 items), fickle k = 1; two-sink SinkBuild chains: items <= 2/3, k = 1; init-future scripts of <= 2 Pendings; LazySinkSource: items <= 3, schedule bit-strings of length 4; 20 000 random runs",
+three-sink demux_var: items <= 3, sticky k = 2 (1 at 3 items), fickle k = 1; two-sink SinkBuild chains: items <= 2/3, k = 1; init-future scripts of <= 2 Pendings; LazySinkSource: items <= 3, schedule bit-strings of length 4; random part: 20 000 runs, length <= 30, Pending density 0-60 %, 15 % injected errors",
         Tier::Thorough => "k = 3 for single-sink families and for sticky two-sink families (unzip, demux_map, demux_map_lazy, demux_var2), fickle two-sink: k = 2; \
-three-sink demux_var: items <= 4, sticky k = 2 (1 at 4 items), fickle k = 1; two-sink SinkBuild chains: items <= 3, k = 2 sticky / 1 fickle; init-future scripts of <= 3 Pendings; LazySinkSource: items <= 4, schedule bit-strings of length 5; 1 000 000 random runs",
+three-sink demux_var: items <= 4, sticky k = 2 (1 at 4 items), fickle k = 1; two-sink SinkBuild chains: items <= 3, k = 2 sticky / 1 fickle; init-future scripts of <= 3 Pendings; LazySinkSource: items <= 4, schedule bit-strings of length 5; random part: 1 000 000 runs, length <= 30, Pending density 0-60 %, 15 % injected errors",
         Tier::Miri => "Miri tier: a fixed slice of ~6 scripted cases per family (Pendings in every phase, one injected error, init Pending/Err) plus 60 random cases of length <= 8 per shard",
     };
     let rule = format!("Real sinktools adaptors (map, filter, filter_map, inspect, flat_map, flatten, unzip, for_each, try_for_each, send_iter, send_stream, \
@@ -767,7 +767,7 @@ x every placement of <= k Pendings per inner sink in each of the ready/flush/clo
 x driver plans (final flush or close-only, a complete flush after the first item; multi-sink: alternative plans sticky with k <= 1); one injected error at every \
 (inner sink, phase, call index) for items <= 3; lazy family: init-future scripts (each Pending either self-waking or woken by an external event fired at quiescence) x Ok/Err \
 outcome x flush/close interleavings; LazySinkSource with the sink driver and the source reader as two tasks with distinct counting wakers under every schedule \
-bit-string, with and without a yield between poll_ready and start_send. Bounds of this tier: {bounds}. Random part: length <= 30, Pending density 0-60 %, 15 % injected errors. \
+bit-string, with and without a yield between poll_ready and start_send. Bounds of this tier: {bounds}. \
 A run is non-trivial if an inner sink answered Pending between two of its items or during flush/close, or (lazy family) if the init future answered Pending at least once.");
     let rule = rule.as_str();
     ctx.rep.finish(rule, exhaustive);
